@@ -185,6 +185,7 @@ func (s *Sim) addTask(name string, body func(t *Task)) *Task {
 func (s *Sim) hook(site int) {
 	t := s.cur
 	s.steps++
+	liveTicks++
 	s.spin = 0
 	s.segs[len(s.segs)-1].N++
 	s.evHash = (s.evHash ^ uint64(t.id+1)<<20 ^ uint64(site)) * fnvPrime
@@ -588,7 +589,7 @@ func trimSegs(in []Seg) []Seg {
 // uninstalls it and reports the count.
 func countHook() func() int64 {
 	var n int64
-	xsimrt.Hook = func(int) { n++ }
+	xsimrt.Hook = func(int) { n++; liveTicks++ }
 	return func() int64 {
 		xsimrt.Hook = nil
 		return n
@@ -604,6 +605,7 @@ func withStepCap(cap int64, f func()) (n int64, capped bool) {
 	prev := xsimrt.Hook
 	xsimrt.Hook = func(site int) {
 		n++
+		liveTicks++
 		if prev != nil {
 			prev(site)
 		}
